@@ -226,6 +226,7 @@ type r2state struct {
 	fallout bool // path left a switch over a parser-state enum through its default / fall-out edge
 	since   int  // stores and calls since that edge (capped)
 	dead    bool
+	disp    int64 // 1 + the state constant this path was dispatched on (0: unknown)
 }
 
 func (s r2state) class(id int) chunkClass { return s.cls[id] }
@@ -433,7 +434,7 @@ func (k *r2client) Key(s r2state) string {
 	for _, id := range ids {
 		fmt.Fprintf(&sb, "%d:%d,", id, s.cls[id])
 	}
-	return fmt.Sprintf("%s|%v|%s|%s|%s|%s|%s|%s|%v|%d|%v", sb.String(), s.eff, s.empty.key(), s.nonnil.key(), s.nilv.key(), s.nnmem.key(), s.bt.key(), s.bf.key(), s.fallout, s.since, s.dead)
+	return fmt.Sprintf("%s|%v|%s|%s|%s|%s|%s|%s|%v|%d|%v|%d", sb.String(), s.eff, s.empty.key(), s.nonnil.key(), s.nilv.key(), s.nnmem.key(), s.bt.key(), s.bf.key(), s.fallout, s.since, s.dead, s.disp)
 }
 
 func (k *r2client) Phis(s r2state, blk *ssa.BasicBlock, pred int) r2state {
@@ -594,6 +595,51 @@ func (k *r2client) Instr(s r2state, in ssa.Instruction) (r2state, bool, []r2stat
 // enumTag: the value has a named integer type declared in the parser's own
 // package (json.state, ubjson.stateType, ubjson.stateStep): a parser-state
 // enum, as opposed to a raw byte taken from the input.
+// fieldPath: for a load of recv.a.b.c, the field index path "a.b.c" (receiver name independent).
+func fieldPath(v ssa.Value) string {
+	ld, ok := v.(*ssa.UnOp)
+	if !ok || ld.Op != token.MUL {
+		return ""
+	}
+	k := addrKey(ld.X)
+	if !strings.HasPrefix(k, "P:") {
+		return ""
+	}
+	i := strings.Index(k, ".")
+	if i < 0 {
+		return ""
+	}
+	return k[i+1:]
+}
+
+// reentryTagPath: the field path of the state value tested by the dispatcher's
+// empty-chunk re-entry condition ((x & M) == V), "" if there is none.
+func reentryTagPath(f *ssa.Function) string {
+	if f == nil {
+		return ""
+	}
+	for _, b := range f.Blocks {
+		for _, in := range b.Instrs {
+			bo, ok := in.(*ssa.BinOp)
+			if !ok || bo.Op != token.EQL {
+				continue
+			}
+			and, ok := bo.X.(*ssa.BinOp)
+			if !ok || and.Op != token.AND {
+				continue
+			}
+			if _, ok := constIntVal(and.Y); !ok {
+				continue
+			}
+			if _, ok := constIntVal(bo.Y); !ok {
+				continue
+			}
+			return fieldPath(and.X)
+		}
+	}
+	return ""
+}
+
 func (k *r2client) enumTag(v ssa.Value) bool {
 	n, ok := v.Type().(*types.Named)
 	if !ok || n.Obj().Pkg() == nil || n.Obj().Pkg() != core.FuncPkg(k.fn) {
@@ -683,6 +729,12 @@ func (k *r2client) Branch(s r2state, cond ssa.Value, outcome bool) (r2state, boo
 				}
 			}
 		}
+		// dispatched on a state constant
+		if bo.Op == token.EQL && outcome && k.sf != nil && k.fam != nil {
+			if c, ok := constIntVal(bo.Y); ok && reentryTagPath(k.fam.feedUntil) != "" && fieldPath(bo.X) == reentryTagPath(k.fam.feedUntil) {
+				s.disp = c + 1
+			}
+		}
 		// fall-out of a switch over a parser-state enum
 		if bo.Op == token.EQL && !outcome && k.enumTag(bo.X) {
 			if _, isC := bo.Y.(*ssa.Const); isC {
@@ -732,6 +784,19 @@ func (k *r2client) judge(s r2state, rest ssa.Value, errv ssa.Value, where string
 		return
 	}
 	if s.empty.has(rid) {
+		// handing back an empty chunk ends the dispatcher loop - unless the
+		// dispatcher goes on with an empty chunk in this very state
+		m, v, re := int64(0), int64(0), false
+		if k.sf != nil && k.fam != nil && k.fam.feedUntil != nil {
+			m, v, re = reentryMask(k.fam.feedUntil)
+		}
+		if !re || s.disp == 0 || (s.disp-1)&m != v {
+			return
+		}
+		if k.bad == nil {
+			k.bad = map[string]string{}
+		}
+		k.bad[where] = fmt.Sprintf("[%s] a path dispatched on state %#x reaches %s with an empty chunk, no parser state changed and no error; the dispatcher goes on with an empty chunk while state&%#x == %#x, so it re-enters with identical state and input (deterministic infinite loop at a chunk boundary)", describeTrail(k.fn, k.trail), s.disp-1, where, m, v)
 		return
 	}
 	if s.fallout && s.since == 0 {
